@@ -132,11 +132,11 @@ FAMILIES = (
             A('a = xs[0]', 'xs', 'a'),
             A('t = g_alias(xs)', 'xs', 't'),
             A('g_alias(ys)', 'ys', ''),
-            A('t = g_param(ys)', 'ys', 't'),
+            A('t = g_param(xs)', 'xs', 't'),
             A('a = g_pure(xs)', 'xs', 'a'),
         ),
         wraps=(W('if1', 'if u > 0:', 'u'), W('for', 'for i{d} in range(n):', 'n')),
-        returns=(A('return xs[0]', 'xs'), A('return ys[0]', 'ys'), A('return a', 'a')),
+        returns=(A('return xs[0]', 'xs'), A('return ys[0]', 'ys'), A('return a', 'a'), A('return xs', 'xs')),
         maxdepth=1,
         sizes={'quick': (4, 5), 'thorough': (6, None)},
         aim='constant lists mutated through an alias and read through the other name; callee that writes its '
@@ -172,7 +172,7 @@ FAMILIES = (
                W('with', f'with {C_FP64} as c{{d}}:')),
         returns=(A('return a', 'a'), A('return b', 'b')),
         maxdepth=2,
-        sizes={'quick': (4, 5), 'thorough': (6, None)},
+        sizes={'quick': (4, 5), 'thorough': (5, None)},
         aim='constants computed under different statically active contexts and rounding modes (1/3 in a 3-bit '
             'float RTZ, in a fixed-point grid RTP, in binary64), -0.0, constants used under another context '
             'than the one that produced them, nested and sequential with blocks, unused `as` names'),
@@ -189,7 +189,7 @@ FAMILIES = (
         wraps=(W('with', f'with {C_SMALL_RTZ}:'), W('with', f'with {C_FP64}:')),
         returns=(A('return a', 'a'), A('return b', 'b')),
         maxdepth=1,
-        sizes={'quick': (4, 5), 'thorough': (6, None)},
+        sizes={'quick': (4, 5), 'thorough': (5, None)},
         aim='the same with a declared (3-bit, round-away) function context: folds happen at top level too'),
     Family(
         name='cond', decorator=f'@fp.fpy(ctx={C_FP64})', params='u: fp.Real', argnames=('u',),
@@ -221,7 +221,7 @@ FAMILIES = (
             A('a = a + 1', 'a', 'a'),
         ),
         wraps=(W('if1', 'if u > 0:', 'u'),),
-        returns=(A('return a', 'a'), A('return b', 'b'), A('return xs[0]', 'xs')),
+        returns=(A('return a', 'a'), A('return b', 'b'), A('return xs[0]', 'xs'), A('return p', 'p')),
         maxdepth=1,
         sizes={'quick': (4, 5), 'thorough': (6, None)},
         aim='tuple targets partly or wholly unused (binding scrubbed to `_`, statement dropped when the right '
